@@ -72,11 +72,12 @@ Check (C07_finished_file_carries_stream_configuration : (forall b m0 ops m rs s,
   (match first_key_of (accepted b ops (map class_of rs)) with
    | Some d => Forall (fun u => len u < 65536) (spec_units d) | None => True end) ->
   check_C07 b ops (map class_of rs) (sink_of m) = true)%type).
-Check (C07_oversized_parameter_set_refuted : (~ (forall b m0 ops m rs s, build b [] = inl m0 -> run m0 ops = (m, rs) -> In (RStats s) rs ->
-       Forall op_payload_ok ops -> len (sink_of m) < 4294967296 ->
-       (cfg_codec b = H264 \/ cfg_codec b = H265) ->
-       (match cfg_audio b with Some a => at_channels a < 65536 | None => True end) ->
-       check_C07 b ops (map class_of rs) (sink_of m) = true))%type).
+Check (C07_finished_file_carries_stream_configuration_unconditional : (forall b m0 ops m rs s,
+  build b [] = inl m0 -> run m0 ops = (m, rs) -> In (RStats s) rs ->
+  Forall op_payload_ok ops -> len (sink_of m) < 4294967296 ->
+  (cfg_codec b = H264 \/ cfg_codec b = H265) ->
+  (match cfg_audio b with Some a => at_channels a < 65536 | None => True end) ->
+  check_C07 b ops (map class_of rs) (sink_of m) = true)%type).
 Check (C07_finished_file_carries_av1_configuration : (forall b m0 ops m rs s,
   build b [] = inl m0 -> run m0 ops = (m, rs) -> In (RStats s) rs ->
   Forall op_payload_ok ops -> len (sink_of m) < 4294967296 ->
